@@ -11,8 +11,10 @@ sub-grammar, recognised by their text in grammar.go, building the same AST type.
 NOT proved: that the two parsers are equal on all token lists (`LRAgrees`; the
 standard LR-correctness argument for this grammar was out of reach).  It is
 CHECKED on every run of `./check C08`: ≥ 12 000 generated value expressions and
-token-level mutants per quick run, model against model (`C08.lrcmp`), and both
-against `Parser.ParseValExp`'s accept/reject.  The corollaries below are
+token-level mutants per quick run, model against model (`C08.lrcmp`), both also
+against `Parser.ParseValExp`'s accept/reject; and EXHAUSTIVELY for every token
+sequence of length ≤ 4 (thorough: ≤ 5) over an alphabet with one token of each
+kind the grammar distinguishes (18 tokens, 111 151 sequences; `C08.lrexh`).  The corollaries below are
 therefore `_partial`: they carry `LRAgrees` (or its instance for the token list
 at hand) as an explicit hypothesis.
 -/
